@@ -223,3 +223,50 @@ func TestOpenSSLReadsBuild(t *testing.T) {
 		}
 	}
 }
+
+func TestAttributeListsAndHeaders(t *testing.T) {
+	key, cert := pemBytes(t, "key-p256.pem"), pemBytes(t, "cert-p256.pem")
+	o := Options{Password: "p", Iter: 1, MacIter: 1, CertSalt: []byte{1}, KeySalt: []byte{2}, MacSalt: []byte{3}, KeyPKCS8: key, CertDER: cert,
+		UseAttrLists: true,
+		CertAttrs: []Attr{
+			{OIDLocalKeyID, [][]byte{OctetsValue([]byte{0xAB, 0x01})}},
+			{[]int{1, 2, 3, 4}, [][]byte{OctetsValue(nil), OctetsValue([]byte{1})}},
+			{OIDFriendlyName, [][]byte{BMPValue(nil)}},
+			{OIDMSCSPName, [][]byte{BMPValue(append(UTF16BE("csp \U0001D11E"), 0, 0))}},
+		},
+		KeyAttrs: []Attr{{OIDFriendlyName, [][]byte{BMPValue([]byte{0, 0x61, 0})}}},
+	}
+	f, err := Parse(Build(o), BMPPassword("p"))
+	if err != nil {
+		t.Fatal(err)
+	}
+	h, ok := f.Bags[0].Headers(false)
+	if !ok || len(h) != 3 || h["localKeyId"] != "ab01" || h["friendlyName"] != "" || h["Microsoft CSP Name"] != "csp \U0001D11E\x00" {
+		t.Fatalf("cert bag headers %q %v", h, ok)
+	}
+	if _, present := h["friendlyName"]; !present {
+		t.Fatal("empty friendlyName must be present")
+	}
+	h, _ = f.Bags[0].Headers(true)
+	if h["Microsoft CSP Name"] != "csp \U0001D11E" {
+		t.Fatalf("terminator not stripped: %q", h)
+	}
+	if h, ok := f.Bags[1].Headers(false); ok || len(h) != 0 {
+		t.Fatalf("odd-length BMPString must be reported malformed: %q %v", h, ok)
+	}
+	// OpenSSL-written file: friendlyName and localKeyID = SHA-1 of the certificate on both bags
+	pfx, _ := os.ReadFile("testdata/ossl-p256-A-4.p12")
+	f, err = Parse(pfx, BMPPassword("密한"))
+	if err != nil {
+		t.Fatal(err)
+	}
+	for _, b := range f.Bags {
+		h, ok := b.Headers(false)
+		if !ok || h["friendlyName"] != "verif-p256" || len(h["localKeyId"]) != 40 || len(h) != 2 {
+			t.Fatalf("%q %v", h, ok)
+		}
+	}
+	if s, ok := DecodeUTF16BE([]byte{0xD8, 0x34, 0x00, 0x41, 0xDC, 0x00}); !ok || s != "�A�" {
+		t.Fatalf("unpaired surrogates: %q", s)
+	}
+}
